@@ -103,6 +103,8 @@ def decide_text(job):
         diffs = e1.replay_concrete(spec, text, pres)
         cls = e1.classify(diffs) if diffs else r.get("kind")
         sig = dict(spec.get("tags") or {}, engine="E1", cls=cls, family2="seeds")
+        if cls == "outside-extent":
+            sig["oob"] = e1.oob_kind(diffs)
         if cls == "model-error:NameError":
             import re
             m = re.search(r"NameError: (\w+)(?: @ ([^;|]*))?", " ".join(diffs))
